@@ -20,7 +20,7 @@ SPEC = {
              "mappings, shared and empty secrets, clients on both sides, malformed and empty payloads, mostly entitled requests with "
              "at most one thing broken); one end-to-end case (mapping created by the real PortMappingService, listen client and "
              "target client both admitted, bytes flow). Observed: the ack on the "
-             "requesting connection and the NUMBER of acknowledgement packets written to it, which connection the bridge holds as source/target, whether the other node received a "
+             "requesting connection and the NUMBER of acknowledgement packets written to it, which connection the bridge holds as source/target and which mapping that bridge serves, whether the other node received a "
              "TargetReady frame, whether bytes written by the other end became readable on the requester. "
              "non-trivial = every case (each is a full request); distinct = distinct case strings"),
     "trusted_base": [
